@@ -124,10 +124,16 @@ func c20Result(t reflect.Type, k int) reflect.Value {
 	case t == reflect.TypeOf(ociregistry.Descriptor{}):
 		v.Set(reflect.ValueOf(ociregistry.Descriptor{Size: int64(7000 + k), MediaType: "c20/result"}))
 	case t == reflect.TypeOf(ociregistry.Seq[string](nil)):
-		v.Set(reflect.ValueOf(ociregistry.Seq[string](func(y func(string, error) bool) { y(fmt.Sprint("c20seq", k), c20SentinelErr) })))
+		v.Set(reflect.ValueOf(ociregistry.Seq[string](func(y func(string, error) bool) {
+			if y(fmt.Sprint("c20seq", k), nil) {
+				y(fmt.Sprint("c20seq-second", k), c20SentinelErr)
+			}
+		})))
 	case t == reflect.TypeOf(ociregistry.Seq[ociregistry.Descriptor](nil)):
 		v.Set(reflect.ValueOf(ociregistry.Seq[ociregistry.Descriptor](func(y func(ociregistry.Descriptor, error) bool) {
-			y(ociregistry.Descriptor{Size: int64(9000 + k)}, c20SentinelErr)
+			if y(ociregistry.Descriptor{Size: int64(9000 + k)}, nil) {
+				y(ociregistry.Descriptor{Size: int64(9500 + k)}, c20SentinelErr)
+			}
 		})))
 	default:
 		panic("c20: unhandled result type " + t.String())
@@ -212,9 +218,26 @@ func c20Drain(v reflect.Value) string {
 	return sb.String()
 }
 
+// c20DrainN runs the iterator and declines after n items.
+func c20DrainN(v reflect.Value, stop int) string {
+	if v.IsNil() {
+		return "nil-seq"
+	}
+	var sb strings.Builder
+	n := 0
+	y := reflect.MakeFunc(v.Type().In(0), func(args []reflect.Value) []reflect.Value {
+		n++
+		fmt.Fprintf(&sb, "[%v|%v]", args[0].Interface(), args[1].Interface())
+		return []reflect.Value{reflect.ValueOf(n < stop)}
+	})
+	v.Call([]reflect.Value{y})
+	return sb.String()
+}
+
 func c20Same(a, b reflect.Value) bool {
 	if a.Kind() == reflect.Func {
-		return c20Drain(a) == c20Drain(b)
+		// the returned iterator is the delegate's: stopped early, run again, run fully - always like the delegate's
+		return c20DrainN(a, 1) == c20DrainN(b, 1) && c20Drain(a) == c20Drain(b) && c20Drain(a) == c20Drain(b)
 	}
 	if a.Kind() == reflect.Interface || a.Kind() == reflect.Ptr {
 		if a.IsNil() || b.IsNil() {
@@ -356,6 +379,20 @@ func (e *c20Env) run(r *vcore.Run, mi int, mask uint32, nilRecv, ctor bool, vari
 			r.Violate("", fp+"/not-constructor-error", c, "the constructor's error (constructor called once)", fmt.Sprintf("%v (constructor calls %d)", gotErr, e.ctorHits))
 		} else {
 			r.Outcome("constructor-error")
+			// the same table asked again, with a constructor that now answers differently: every call
+			// gets the error the constructor supplies for THAT call
+			second := errors.New("c20 constructor error, second call")
+			recv.Interface().(*ociregistry.Funcs).NewError = func(ctx context.Context, methodName, repo string) error {
+				e.ctorHits++
+				return second
+			}
+			var out2 []reflect.Value
+			if !r.Guard("", fp+"/second-call", c, func() { out2 = m.Func.Call(args) }) {
+				got2 := c20ErrOf(out2)
+				if got2 != second || e.ctorHits != 2 {
+					r.Violate("", fp+"/second-call-not-constructor-error", c, "the error the constructor supplies for the second call (constructor called again)", fmt.Sprintf("%v (constructor calls %d)", got2, e.ctorHits))
+				}
+			}
 		}
 	default:
 		if !errors.Is(gotErr, ociregistry.ErrUnsupported) {
@@ -364,6 +401,30 @@ func (e *c20Env) run(r *vcore.Run, mi int, mask uint32, nilRecv, ctor bool, vari
 			r.Outcome("unsupported")
 		}
 	}
+}
+
+// c20ErrOf extracts the error of a result vector (last result, or the single error item of an iterator).
+func c20ErrOf(out []reflect.Value) (err error) {
+	if len(out) == 0 {
+		return nil
+	}
+	last := out[len(out)-1]
+	if last.Type() == errType {
+		if !last.IsNil() {
+			err = last.Interface().(error)
+		}
+		return err
+	}
+	if last.Kind() == reflect.Func && !last.IsNil() {
+		y := reflect.MakeFunc(last.Type().In(0), func(a []reflect.Value) []reflect.Value {
+			if !a[1].IsNil() {
+				err = a[1].Interface().(error)
+			}
+			return []reflect.Value{reflect.ValueOf(true)}
+		})
+		last.Call([]reflect.Value{y})
+	}
+	return err
 }
 
 func c20ShowArgs(vec []reflect.Value) string {
